@@ -2,7 +2,7 @@
 """C16 -- tag commands retry transient errors and fail only as TagCommandError."""
 import ast
 
-from ..model import norm, head, walk_no_nested, AnalysisError, FuncInfo, ClassInfo, enclosing_stmt, ancestors
+from ..model import norm, head, walk_no_nested, AnalysisError, FuncInfo, ClassInfo, enclosing_stmt, ancestors, live
 from ..cfg import cfg_of
 from ..resolve import Resolver, Ctx
 from ..escape import Escape, fmt_chain, items_sorted
@@ -273,7 +273,7 @@ def rule_retry(report, prog):
 
 def rule_activate(report, prog):
     f = prog.func('nfc.tag.activate')
-    hs = {norm(h.type): [norm(s) for s in h.body] for t in walk_no_nested(f.node) if isinstance(t, ast.Try) for h in t.handlers if h.type is not None}
+    hs = {norm(h.type): [norm(s) for s in live(h.body)] for t in walk_no_nested(f.node) if isinstance(t, ast.Try) for h in t.handlers if h.type is not None}
     report.check(hs == {'nfc.clf.CommunicationError': ['return None']}, 'C16-R4', key(f.qname, 'CommunicationError during activation -> None'), f.loc(),
                  'activation boundary changed: %r' % hs)
     tr = [t for t in walk_no_nested(f.node) if isinstance(t, ast.Try)]
